@@ -24,11 +24,12 @@ EXPLANATION = (
     "(no hidden state shared along the hierarchy). (R6) _collect_fields fills the field mapping while ranging over the type hints (declaration order), not the merged class attributes; (R7) the `Field omitted` test looks at the class's own namespace (cls.__dict__), so a bare re-annotation in a subclass gets a fresh Field. " 
     " (R8) definite assignment: no function of the DataFrameModel modules reads a local that a branch-only path from its entry leaves unassigned (CFG may-analysis, optimistic about try bodies and loop bodies, correlated guards pruned) - an UnboundLocalError there would escape to_schema(). " 
     " (R9) whether a Field alias was given is decided by `is None` only (alias 0 / '' are legal) - no truthiness test or `alias or name` fallback; (R10) Field forwards every Check option among its parameters (ignore_na, raise_warning, n_failure_cases) to every check constructor call, unfiltered by value. " 
+    " (R11) _collect_config_and_extras lets the more derived model override the accumulated options and extras (acc.update(new) / {**acc, **new}, never the transposed spelling); (R12) the column builders look custom checks / parsers up with the key of the fields mapping they iterate (the alias), not field.original_name. " 
     "NOT decided: annotation -> dtype translation; MRO semantics at run "
     "time; verdict equality on data."
 )
 LEVEL_RULE = "one obligation per twin pair / config option / dispatch key / field attribute / write site"
-FLOORS = {"R1": 4, "R2": 12, "R3": 16, "R4": 14, "R5": 1, "R6": 1, "R7": 1, "R8": 1, "R9": 1, "R10": 2, "R11": 2, "R12": 3}
+FLOORS = {"R1": 4, "R2": 12, "R3": 16, "R4": 14, "R5": 1, "R6": 1, "R7": 1, "R8": 1, "R9": 1, "R10": 1, "R11": 2, "R12": 3}
 
 MODEL = "pandera/api/dataframe/model.py::DataFrameModel"
 MC = "pandera/api/dataframe/model_components.py"
@@ -419,6 +420,30 @@ def r10_field_check_options(ctx):
         raise AnalysisError(f"Field/Check common options: {options}")
     ex = Expander(f.node)
     splats = []
+    from ..util import same_module_helpers
+    # every use of a check constructor taken from the dispatch table - called directly, or handed to a local helper that
+    # calls it - carries the options
+    # the dispatch table: a local bound to the registry of check constructors (a `*dispatch*` helper, possibly inlined by the
+    # normaliser into the dict of Check.<builtin> attributes it returns)
+    dispatch = {t.id for st in walk_no_nested(f.node) if isinstance(st, ast.Assign) for t in st.targets if isinstance(t, ast.Name) and (
+        (isinstance(st.value, ast.Call) and "dispatch" in callee_last(st.value)) or
+        (isinstance(st.value, ast.Dict) and sum(1 for v in st.value.values if isinstance(v, ast.Attribute) and txt(v.value) == "Check") >= 5))}
+    ctors = set()
+    for lp in [x for x in walk_no_nested(f.node) if isinstance(x, ast.For)]:
+        if isinstance(lp.iter, ast.Call) and callee_last(lp.iter) == "items" and txt(lp.iter.func.value) in dispatch and isinstance(lp.target, ast.Tuple) \
+                and len(lp.target.elts) == 2 and isinstance(lp.target.elts[1], ast.Name):
+            ctors.add(lp.target.elts[1].id)
+
+    def is_ctor(e):
+        return (isinstance(e, ast.Name) and e.id in ctors) or (isinstance(e, ast.Subscript) and isinstance(e.value, ast.Name) and e.value.id in dispatch)
+
+    for c in calls_in(f.node):
+        if is_ctor(c.func) or any(is_ctor(a) for a in c.args):
+            has = any(k.arg is None and isinstance(k.value, ast.Name) and k.value.id not in ("kwargs", "arg_value") for k in c.keywords)
+            if not has:
+                ctx.ob("R10", f, f"`{txt(c)[:50]}` receives every check option of Field unfiltered", False,
+                       "a check constructor from the dispatch table is used without the check options (ignore_na / raise_warning / n_failure_cases): "
+                       "Field(between={...}, raise_warning=True) builds a check that raises where the equivalent Column only warns", f.loc(c))
     for c in calls_in(f.node):
         for k in c.keywords:
             if k.arg is None and isinstance(k.value, ast.Name) and k.value.id not in ("kwargs", "arg_value"):
